@@ -186,6 +186,9 @@ namespace options
 
     void toggle::prepare()
     {
+        // forget everything from an earlier call to parse()
+        given_ = 0;
+        dirty_ = false;
     }
 
     void toggle::check()
